@@ -109,6 +109,22 @@ def same_geometry_layout(cfg, order, rev, dec):
     return out
 
 
+def scaled(cfg, s):
+    """the same grid in another length unit: every coordinate multiplied by s (layout flags untouched)"""
+    if s == 1.0:
+        return cfg
+    out = dict(cfg)
+    c = cfg["cls"]
+    if c == "rect":
+        out["axes"] = [[x * s for x in a] for a in cfg["axes"]]
+    elif c == "uni":
+        out["spacing"] = [x * s for x in cfg["spacing"]]
+        out["origin"] = [x * s for x in cfg["origin"]]
+    else:
+        out["cellsize"], out["xll"], out["yll"] = cfg["cellsize"] * s, cfg["xll"] * s, cfg["yll"] * s
+    return out
+
+
 # ------------------------------------------------------------------ finam side
 def build(cfg):
     import finam as fm
